@@ -101,6 +101,14 @@ pub fn abacus(seed: u64, stream: u64, mspec: &str) -> Vec<Sample> {
     let (sig, cstate) = cm.into_parts();
     push(&mut out, "CloseStateSignature", &sig);
     push(&mut out, "CloseState", &cstate);
+    // more small values with independent randomness (decoders of validated types branch on it)
+    for _ in 0..16 {
+        let pair = za::internal::test_new_revocation_pair(&mut rng);
+        push(&mut out, "RevocationPair", &pair);
+        push(&mut out, "RevocationSecret", &pair.revocation_secret());
+        push(&mut out, "RevocationLock", &pair.revocation_lock());
+        push(&mut out, "Nonce", &za::internal::test_new_nonce(&mut rng));
+    }
     push(&mut out, "Error", &za::Error::InsufficientFunds);
     push(&mut out, "Error", &za::Error::AmountTooLarge(1u64 << 63));
     out
